@@ -342,23 +342,23 @@ def twist_file(ctx, npts):
 
 
 def p_C04(ctx):
-    flow_trace(ctx, "group", 6000, 120000, chunk=500, extra=["--focus", "law"])
+    flow_trace(ctx, "group", 9000, 120000, chunk=500, extra=["--focus", "law"])
     flow_symwalk(ctx, acts={"add", "sub", "neg", "gen", "zero"}, mode="constructive")
     levelb_jac(ctx)
 
 
 def p_C05(ctx):
-    flow_trace(ctx, "group", 3000, 60000, chunk=250, extra=["--focus", "mul"])
+    flow_trace(ctx, "group", 5500, 60000, chunk=250, extra=["--focus", "mul"])
     flow_symwalk(ctx, acts={"mul"}, mode="constructive")
 
 
 def p_C15(ctx):
-    flow_trace(ctx, "group", 6000, 120000, chunk=500, extra=["--focus", "eq"])
+    flow_trace(ctx, "group", 9000, 120000, chunk=500, extra=["--focus", "eq"])
     flow_symwalk(ctx, acts={"observe", "normalize", "affrt", "rescale"}, mode="constructive")
 
 
 def p_C10(ctx):
-    flow_trace(ctx, "encode", 4700, 60000, chunk=300, need={"g.encode": 4500})
+    flow_trace(ctx, "encode", 6000, 60000, chunk=300, need={"g.encode": 5800})
     flow_symwalk(ctx, acts={"codec"}, mode="constructive")
 
 
@@ -376,20 +376,23 @@ def p_C08(ctx):
 
 def p_C09(ctx):
     tw = twist_file(ctx, 6 if ctx.quick() else 40)
-    flow_trace(ctx, "affine", 10 ** 9, 10 ** 9, chunk=600, extra=["--in", tw])
+    a = flow_trace(ctx, "affine", 10 ** 9, 10 ** 9, chunk=600, extra=["--in", tw])
+    # "always rejected" includes the unoptimised build: the same inputs under the dev profile, compared record by record
+    b = flow_trace(ctx, "affine", 10 ** 9, 10 ** 9, profile="dev", chunk=600, extra=["--in", tw])
+    compare_profiles(ctx, "affine", a, b)
 
 
 def p_C14(ctx):
-    flow_trace(ctx, "sqrt", 4500, 80000, chunk=400)
+    flow_trace(ctx, "sqrt", 6500, 80000, chunk=400, need={"f2.sqrt": 3000})
     levelb_sqrt(ctx)
 
 
 def p_C11(ctx):
-    flow_trace(ctx, "gt", 1500, 30000, chunk=120)
+    flow_trace(ctx, "gt", 2700, 30000, chunk=120, need={"gt.mul": 400, "gt.pow": 600})
 
 
 def p_C01(ctx):
-    flow_trace(ctx, "pairing", 330, 6000, chunk=24, extra=["--focus", "laws"], need={"pair.laws": 100, "pair": 100})
+    flow_trace(ctx, "pairing", 1100, 6000, chunk=40, extra=["--focus", "laws"], need={"pair.laws": 150, "pair": 700})
     flow_programs(ctx, "gmachine", 6, 28, 200, 1200, extra=["--focus", "pair"], label="gm-pair")
     pair_acts = {"pair", "gtsquare", "gtinv", "gtpow", "gtmulpair"}
     if ctx.quick():
@@ -399,14 +402,14 @@ def p_C01(ctx):
 
 
 def p_C02(ctx):
-    flow_trace(ctx, "pairing", 400, 5000, chunk=20, extra=["--focus", "vector"], need={"pair": 380})
+    flow_trace(ctx, "pairing", 1150, 5000, chunk=40, extra=["--focus", "vector"], need={"pair": 1100})
     if not ctx.quick():
         # the pairing specification itself, instantiated on a toy BN curve on native integers (no Java): bilinearity grid
         flow_model(ctx, "MC_Toy82", workers=9, timeout=3600, xmx="6g", label="MC_Toy82")
 
 
 def p_C03(ctx):
-    flow_trace(ctx, "pairing", 1150, 8000, chunk=40, extra=["--focus", "agree"], need={"pair": 900, "prep.reuse": 60})
+    flow_trace(ctx, "pairing", 1950, 8000, chunk=50, extra=["--focus", "agree"], need={"pair": 1600, "prep.reuse": 60})
     flow_programs(ctx, "gmachine", 6, 28, 250, 1500, extra=["--focus", "prep"], label="gm-prep")
     if ctx.quick():
         flow_sympair(ctx, mode="walk", k=1, kg=2)
